@@ -31,6 +31,7 @@ def run(ctx):
                      "scipy.linalg.expm(-i theta P/2) for |theta| <= 60, both to 1e-9. non-trivial = constant gate or non-zero parameter")
     G.sweep(ctx, "C02", oracle_c02)
     G.run_composite(ctx, "C02")
+    G.second_opinion(ctx, ["Prop_C02", "Prop_C02c"])
 
 
 def replay(ctx, data):
